@@ -49,6 +49,10 @@ TRICKY_STRS = ["C:\\", "a\\", "\\", "it's", 'say "hi"', "{x}", "{}", "{", "}", "
                # typographic look-alikes of the language's own punctuation (what a word processor or chat tool makes of ' " - ...)
                "prix_d\u2019\u00e9t\u00e9", "\u2018q\u2019", "\u201cq\u201d", "\u201eq\u201c", "\u00abq\u00bb", "a\u2032b", "a\u2033", "\u00b4", "a\u2013b", "a\u2014b",
                "\u22121", "1\u20442", "a\u2026", "a\u00a0b", "a\u202fb", "\u00ad", "x\u200by", "\ufe63", "\uff0d1", "\uff0c", "\uff1a", "\uff5b\uff5d", "\uff08\uff09"]
+# fragments of the text the code generator itself emits around a salt / a literal (a post-processing step that edits the
+# generated text must not find its own patterns inside user strings)
+TRICKY_STRS += ["x''+", "''+", "exp ''+ 2024", "'+'", "''", "+", "''.join(", "''.join(map(str, [uid]))", "')+(", "partial(", "deterministic_choice(", "weights=[1, 1]", "],",
+                "population=[", "input_id=", "**kwargs", "):", "def f():", "return 'x'", "\t\t", "if (", " == ", "(a == 'b')", "raise ", "lambda: 0", "[", "]", "=", "==", ":", "'s'+", "+''"]
 SALT_TEMPLATES = ["{%s}", "{%s}:v1", "x{%s!r}", "%%(%s)s", "${%s}", "{%s:>4}", "{0}{%s}"]
 
 
